@@ -95,7 +95,7 @@ async def calculate_in_subprocess(func: Callable[..., Union[T, Awaitable[T]]], *
 
     try:
         result = rx.recv()
-    except EOFError:  # the subprocess terminated without sending a result
+    except (EOFError, OSError):  # the subprocess terminated without sending a (complete) result
         result = SubprocessError(ex=ChildProcessError('The subprocess terminated without returning a result.'))
 
     process.join()  # this blocks synchronously! make sure that process is terminated before you call join()
